@@ -245,6 +245,21 @@ fn api_bin_expr(l: SimpleExpr, op: &str, r: SimpleExpr) -> Option<SimpleExpr> {
     })
 }
 
+/// the inherent methods of SimpleExpr that shadow the trait's
+fn api_bin_inherent(l: SimpleExpr, op: &str, r: SimpleExpr) -> Option<SimpleExpr> {
+    Some(match op {
+        "eq" => l.eq(r),
+        "ne" => l.ne(r),
+        "add" => l.add(r),
+        "sub" => l.sub(r),
+        "mul" => l.mul(r),
+        "div" => l.div(r),
+        "and" => l.and(r),
+        "or" => l.or(r),
+        _ => return None,
+    })
+}
+
 fn api_bin(l: SimpleExpr, op: &str, r: SimpleExpr) -> Option<SimpleExpr> {
     Some(match op {
         "eq" => ExprTrait::eq(l, r),
@@ -453,8 +468,9 @@ pub fn colref(s: &S) -> ColumnRef {
 pub fn expr(s: &S) -> SimpleExpr {
     let l = s.args();
     match s.head() {
-        "col" | "star" | "tstar" => match shash(s) % 3 {
+        "col" | "star" | "tstar" => match shash(s) % 4 {
             1 => Expr::col(colref(s)).into(),
+            3 => Expr::column(colref(s)),
             2 if s.head() == "star" => Expr::asterisk().into(),
             2 if s.head() == "tstar" => Expr::table_asterisk(a(&hx(&l[0]))).into(),
             _ => SimpleExpr::Column(colref(s)),
@@ -480,7 +496,11 @@ pub fn expr(s: &S) -> SimpleExpr {
         "bin" => {
             let (lft, rgt) = (expr(&l[1]), expr(&l[2]));
             let name = l[0].atom();
-            match shash(s) % 5 {
+            match shash(s) % 6 {
+                5 => match api_bin_inherent(lft.clone(), name, rgt.clone()) {
+                    Some(e) => e,
+                    None => SimpleExpr::Binary(Box::new(lft), binop_named(name), Box::new(rgt)),
+                },
                 1 => match api_bin(lft.clone(), name, rgt.clone()) {
                     Some(e) => e,
                     None => SimpleExpr::Binary(Box::new(lft), binop_named(name), Box::new(rgt)),
@@ -573,10 +593,10 @@ pub fn expr(s: &S) -> SimpleExpr {
             SimpleExpr::SubQuery(op, Box::new(crate::stmts::subquery(&l[1])))
         }
         "val" => {
-            if shash(s) % 2 == 0 {
-                SimpleExpr::Value(value(&l[0]))
-            } else {
-                Expr::val(value(&l[0])).into()
+            match shash(s) % 3 {
+                0 => SimpleExpr::Value(value(&l[0])),
+                1 => Expr::val(value(&l[0])).into(),
+                _ => Expr::value(value(&l[0])),
             }
         }
         "vals" => SimpleExpr::Values(l.iter().map(value).collect()),
@@ -600,6 +620,9 @@ pub fn expr(s: &S) -> SimpleExpr {
             "ctime" => Expr::current_time().into(),
             _ => Expr::current_timestamp().into(),
         },
+        "kw" if shash(s) % 2 == 1 && l[0].atom().starts_with("cust:") => {
+            Expr::custom_keyword(a(&unhexs(l[0].atom().strip_prefix("cust:").unwrap()))).into()
+        }
         "kw" => SimpleExpr::Keyword(match l[0].atom() {
             "null" => Keyword::Null,
             "cdate" => Keyword::CurrentDate,
@@ -611,8 +634,12 @@ pub fn expr(s: &S) -> SimpleExpr {
         "case" => {
             // (case (w <cond> <result>)... [(else e)])
             let mut c = CaseStatement::new();
-            for w in l {
+            for (wi, w) in l.iter().enumerate() {
                 match w.head() {
+                    // the first arm also through Expr::case
+                    "w" if wi == 0 && shash(s) % 2 == 1 => {
+                        c = Expr::case(crate::conds::cond_or_expr(&w.args()[0]), expr(&w.args()[1]))
+                    }
                     "w" => c = c.case(crate::conds::cond_or_expr(&w.args()[0]), expr(&w.args()[1])),
                     "else" => c = c.finally(expr(&w.args()[0])),
                     _ => panic!("case arm"),
@@ -664,6 +691,9 @@ pub fn expr(s: &S) -> SimpleExpr {
         "isnotnull" => via!(s, expr(&l[0]), is_not_null()),
         "castas" => via!(s, expr(&l[0]), cast_as(a(&hx(&l[1])))),
         "fncast" => SimpleExpr::FunctionCall(Func::cast_as(expr(&l[0]), a(&hx(&l[1])))),
+        "fncastq" if shash(s) % 2 == 1 => {
+            expr(&l[0]).cast_as_quoted(a(&hx(&l[1])), sea_query::Quote::new(l[2].atom().parse::<u8>().unwrap()))
+        }
         "fncastq" => SimpleExpr::FunctionCall(Func::cast_as_quoted(
             expr(&l[0]),
             a(&hx(&l[1])),
